@@ -9,7 +9,7 @@ From RN Require Proofs.ShapesP.
 (* META-THEOREM, for all tables, types and values: a Rust type accepted by [compat] against a TypeScript type
    only ever serialises to documents that conform to it *)
 Theorem C19_compat_sound : forall f rds tds r t g v j,
-  compat f rds tds r t = true -> enc g rds r v = Some j -> conforms f tds t j = true.
+  compat f rds tds r t = true -> enc g rds r v = Some j -> conforms (S f) tds t j = true.
 Proof. exact ShapesP.compat_sound. Qed.
 
 (* the current sources: every serialised Plan conforms to the published binding ... *)
@@ -20,16 +20,16 @@ Proof. exact ShapesP.plan_conforms. Qed.
 (* ... and the documents of search / plan and of rename carry what the extension reads *)
 Theorem C19_plan_document : forall g v j,
   enc g gen_rdefs (RRef (bs "PlanResult.json")) v = Some j -> conforms 12 gen_tdefs expect_plan_doc j = true.
-Proof. intros g v j. apply ShapesP.compat_sound. vm_compute. reflexivity. Qed.
+Proof. intros g v j. apply (ShapesP.compat_sound 11). vm_compute. reflexivity. Qed.
 
 Theorem C19_rename_document : forall g v j,
   enc g gen_rdefs (RRef (bs "RenameResult.json")) v = Some j -> conforms 12 gen_tdefs expect_rename_doc j = true.
-Proof. intros g v j. apply ShapesP.compat_sound. vm_compute. reflexivity. Qed.
+Proof. intros g v j. apply (ShapesP.compat_sound 11). vm_compute. reflexivity. Qed.
 
 Theorem C19_simple_documents : forall n, In n [bs "ApplyResult.json"; bs "UndoResult.json"; bs "RedoResult.json"] ->
   forall g v j, enc g gen_rdefs (RRef n) v = Some j -> conforms 12 gen_tdefs expect_simple_doc j = true.
 Proof.
-  intros n Hn g v j. apply ShapesP.compat_sound.
+  intros n Hn g v j. apply (ShapesP.compat_sound 11).
   destruct Hn as [<-|[<-|[<-|[]]]]; vm_compute; reflexivity.
 Qed.
 
